@@ -1,9 +1,9 @@
 #!/bin/bash
 # re-run the recorded seeds of the given rounds against a scratch worktree (sound rebuild per seed: ./check touches
-# the sources under VERIF_REPO).  usage: tools/reverify_seeds.sh <round> [<round> …]   -> /tmp/reverify/<name>.log
+# the sources under VERIF_REPO).  usage: tools/reverify_seeds.sh <round> [<round> …]   -> $out/<name>.log
 cd ${VERIF_HOME:-/verif}
-mkdir -p /tmp/reverify
-wt=/tmp/wt-reverify
+out=${OUT:-/tmp/reverify}; mkdir -p $out
+wt=${WT:-/tmp/wt-reverify}
 git -C /repo worktree remove --force $wt 2>/dev/null; rm -rf $wt; git -C /repo worktree prune
 git -C /repo worktree add --detach $wt HEAD >/dev/null 2>&1
 for r in "$@"; do
@@ -13,10 +13,10 @@ for r in "$@"; do
     prop=$(python3 -c "import json;print(json.load(open('$m'))['property'])")
     [ "$rnd" = "$r" ] || continue
     git -C $wt checkout -q -- . ; git -C $wt clean -fdq
-    if ! git -C $wt apply ${VERIF_HOME:-/verif}/$d/patch.diff 2>/dev/null; then echo "$name: PATCH-DOES-NOT-APPLY" > /tmp/reverify/$name.log; continue; fi
-    VERIF_REPO=$wt ./check $prop --tier quick 2>&1 | grep -E "VIOLATION|KNOWN|^\[" | head -4 > /tmp/reverify/$name.log
-    echo "$r $prop $name: $(grep -c VIOLATION /tmp/reverify/$name.log) $(grep -c no-failing-input-found /tmp/reverify/$name.log)" >> /tmp/reverify/summary.txt
+    if ! git -C $wt apply ${VERIF_HOME:-/verif}/$d/patch.diff 2>/dev/null; then echo "$name: PATCH-DOES-NOT-APPLY" > $out/$name.log; continue; fi
+    VERIF_REPO=$wt ./check $prop --tier quick 2>&1 | grep -E "VIOLATION|KNOWN|^\[" | head -4 > $out/$name.log
+    echo "$r $prop $name: $(grep -c VIOLATION $out/$name.log) $(grep -c no-failing-input-found $out/$name.log)" >> $out/summary.txt
   done
 done
 git -C /repo worktree remove --force $wt; rm -rf $wt; git -C /repo worktree prune
-echo REVERIFY-DONE >> /tmp/reverify/summary.txt
+echo REVERIFY-DONE >> $out/summary.txt
